@@ -173,6 +173,30 @@ theorem writes_keep_sorted (m : Store) (hs : m.Sorted) :
     (∀ k v, (m.insert k v).Sorted) ∧ (∀ k, (m.erase k).Sorted) ∧ (∀ lo hi, (m.eraseRange lo hi).Sorted) :=
   ⟨fun k v => OMap.insert_sorted hs k v, fun k => OMap.erase_sorted hs k, fun lo hi => OMap.eraseRange_sorted hs lo hi⟩
 
+/-! ### termination once the layout stays constant (Scan, Checksum, DeleteRange) -/
+
+/-- Scan returns for every layout sequence that ends with `n > |L|` served attempts under one layout `L`,
+    whatever layouts and region errors came before. -/
+theorem scan_terminates (m : Store) (L : Layout) (n : Nat) (hn : L.length < n) (pre : SScript)
+    (start end_ : Bytes) (limit : Nat) (keyOnly : Bool) :
+    (scan m (pre ++ List.replicate n (some L)) start end_ limit keyOnly).isSome = true :=
+  scanLoop_eventually_const_terminates m _ end_ limit L n hn pre start [] []
+
+theorem checksum_terminates (m : Store) (L : Layout) (n : Nat) (hn : L.length < n) (pre : SScript) (start end_ : Bytes) :
+    (checksum m (pre ++ List.replicate n (some L)) start end_).isSome = true :=
+  checksumLoop_eventually_const_terminates m end_ L n hn pre start Checksum.zero []
+
+theorem delete_range_terminates (m : Store) (L : Layout) (n : Nat) (hn : L.length < n) (pre : SScript) (start end_ : Bytes) :
+    (deleteRange m (pre ++ List.replicate n (some L)) start end_).isSome = true :=
+  deleteRangeLoop_eventually_const_terminates end_ L n hn pre start m []
+
+/-- NOT proved (kept as statements): termination of ReverseScan for eventually constant layouts (symmetric
+    argument with the split points below the cursor), and of the batch calls for scripts whose batches
+    eventually all succeed. -/
+def reverse_scan_terminates_stmt : Prop :=
+  ∀ (m : Store) (L : Layout) (n : Nat), L.length < n → ∀ (pre : SScript) (start end_ : Bytes) (limit : Nat) (keyOnly : Bool),
+    (reverseScan m (pre ++ List.replicate n (some L)) start end_ limit keyOnly).isSome = true
+
 /-! ### non-vacuity: a sorted three-key map, a split in the middle of the call, a region error, a re-grouped batch -/
 
 def m0 : Store := ((OMap.empty.insert [0x6b] [1]).insert [0x6d] [2]).insert [0x70] [3]
